@@ -932,6 +932,52 @@ func r19Sibling(c *core.Ctx, p *load.Program, sh *blobShape, ref map[string][]st
 			}
 		}
 	}
+	// R19.6 (plain stores): a blob built in place (`&Blob{length: ...}`) gets a length that was measured (Length() of the
+	// JS value, len), is a non-negative constant, or is non-negative by the dominating guards — the JS engine clamps
+	// subarray/slice bounds, so "end - start" of unvalidated arguments is neither the array's length nor non-negative
+	for _, fn := range pkgFuncs(p, pkgRelOf(sh)) {
+		ord := ordinals{}
+		ssax.Instrs(fn, func(ins ssa.Instruction) {
+			st, ok := ins.(*ssa.Store)
+			if !ok {
+				return
+			}
+			fa, ok := st.Addr.(*ssa.FieldAddr)
+			if !ok || ssax.FieldName(fa) != sh.lenField {
+				return
+			}
+			if n := ssax.StructOfFieldAddr(fa); n == nil || !types.Identical(n, sh.named) {
+				return
+			}
+			key := fname(fn) + "|" + ord.next("length-field-store")
+			v := ssax.StripIntConv(st.Val)
+			okv := false
+			if k, isK := ssax.ConstInt(v); isK && k >= 0 {
+				okv = true
+			}
+			if originIs(v, func(x ssa.Value) bool {
+				cl, ok := x.(*ssa.Call)
+				if !ok {
+					return false
+				}
+				if b, ok := cl.Call.Value.(*ssa.Builtin); ok && b.Name() == "len" {
+					return true
+				}
+				callee := ssax.StaticCallee(cl)
+				return callee != nil && (callee.Name() == "Length" || callee.Name() == "Len")
+			}) {
+				okv = true
+			}
+			if !okv {
+				canon := sh.canon(fn)
+				b := ssax.NewBounds(ssax.FactsAtInstr(st), canon)
+				t, _ := canon(v)
+				okv = b.LE(ssax.Term{IsConst: true}, t, 0)
+			}
+			c.Check(okv, "R19.6", key, p.Pos(st.Pos()), "the length stored into a new blob is measured, constant or non-negative by guards",
+				fmt.Sprintf("%s stores a computed, unvalidated length into a blob it builds: the typed array behind it was clamped by the JS engine (subarray/slice accept any bounds), so Len() can be negative or larger than what Bytes() returns — View(3, 1) of 4 bytes is an empty view with Len() == -2", fname(fn)))
+		})
+	}
 	c.Info("sibling_guard_differences_info_only", diffs)
 }
 
@@ -1445,14 +1491,13 @@ func r19AllocUnderDeferredUnlock(c *core.Ctx, p *load.Program, sh *blobShape) {
 			pp, ok := v.(*ssa.Parameter)
 			return pp, ok
 		}
+		underLock := false
 		ssax.Instrs(fn, func(ins ssa.Instruction) {
-			if len(ls[ins]) == 0 {
-				return
-			}
 			switch x := ins.(type) {
 			case *ssa.MakeSlice:
 				if _, ok := isParam(x.Len); ok {
 					alloc, allocFn = x, fn
+					underLock = underLock || len(ls[ins]) > 0
 				}
 			case *ssa.Call:
 				callee := ssax.StaticCallee(x)
@@ -1467,6 +1512,7 @@ func r19AllocUnderDeferredUnlock(c *core.Ctx, p *load.Program, sh *blobShape) {
 						if ms, ok := i2.(*ssa.MakeSlice); ok {
 							if pp, ok := isParam(ms.Len); ok && pp == callee.Params[ai] {
 								alloc, allocFn = ms, callee
+								underLock = underLock || len(ls[ins]) > 0
 							}
 						}
 					})
@@ -1500,7 +1546,15 @@ func r19AllocUnderDeferredUnlock(c *core.Ctx, p *load.Program, sh *blobShape) {
 			}
 		})
 		key := tk + "." + mn + "|caller-sized-allocation-under-the-lock-is-survivable"
-		c.Check(deferredUnlock && recovers, "R19.15", key, p.Pos(alloc.Pos()), "the mutex is released by a deferred Unlock and the allocation panic is recovered into an error",
+		// outside the critical section the allocation still has to be survivable (an error, not a panic); under the
+		// lock the Unlock must be deferred as well
+		c.Check(recovers && (deferredUnlock || !underLock), "R19.15", key, p.Pos(alloc.Pos()), "the mutex is released by a deferred Unlock and the allocation panic is recovered into an error",
 			fmt.Sprintf("%s.%s allocates a slice whose size the caller controls while holding the blob's mutex (deferred Unlock: %v, recover: %v): for a size the runtime cannot serve (Truncate(1<<62) on a handle grows by that much) make panics — the out-of-range argument panics instead of returning an error, and with an explicit Unlock the mutex stays locked, so every later operation on the file blocks for ever", tk, mn, deferredUnlock, recovers))
 	}
+}
+
+// pkgRelOf: the module-relative directory of the package the blob type lives in.
+func pkgRelOf(sh *blobShape) string {
+	path := sh.named.Obj().Pkg().Path()
+	return strings.TrimPrefix(strings.TrimPrefix(path, mod), "/")
 }
